@@ -9680,10 +9680,19 @@ def _write_node(node, xml_tree=None, viewport_transform=None):
         set_geometry(SVG_ATTR_RADIUS_X, node.rx)
         set_geometry(SVG_ATTR_RADIUS_Y, node.ry)
     elif isinstance(node, Circle):
-        xml_tree = subxml(xml_tree, SVG_TAG_CIRCLE)
-        set_geometry(SVG_ATTR_CENTER_X, node.cx)
-        set_geometry(SVG_ATTR_CENTER_Y, node.cy)
-        set_geometry(SVG_ATTR_RADIUS, node.rx)
+        if node.rx == node.ry:
+            xml_tree = subxml(xml_tree, SVG_TAG_CIRCLE)
+            set_geometry(SVG_ATTR_CENTER_X, node.cx)
+            set_geometry(SVG_ATTR_CENTER_Y, node.cy)
+            set_geometry(SVG_ATTR_RADIUS, node.rx)
+        else:
+            # A circle reified under a non-uniform scale has two radii: only an ellipse element can carry them.
+            xml_tree = subxml(xml_tree, SVG_TAG_ELLIPSE)
+            set_geometry(SVG_ATTR_CENTER_X, node.cx)
+            set_geometry(SVG_ATTR_CENTER_Y, node.cy)
+            set_geometry(SVG_ATTR_RADIUS_X, node.rx)
+            set_geometry(SVG_ATTR_RADIUS_Y, node.ry)
+            set_geometry(SVG_ATTR_RADIUS, None)  # the source attribute of the circle
     elif isinstance(node, Image):
         xml_tree = subxml(xml_tree, SVG_TAG_IMAGE)
         from base64 import b64encode
